@@ -183,6 +183,15 @@ func init() {
 	// ---- sync ----
 	lockMods := func(ms *ModSet, c *ssa.CallCommon) {
 		ms.add(KeyInfo{Key: "GH!locks", Ghost: "Int"})
+		// the held bit of this mutex field (callers reason about it through held())
+		if c != nil && len(c.Args) > 0 {
+			if fa, ok := c.Args[0].(*ssa.FieldAddr); ok {
+				bt := deref(fa.X.Type())
+				if _, st := namedStruct(bt); st != nil && isRefStruct(bt) {
+					ms.add(KeyInfo{Key: "GH!held!" + fieldKeyName(bt, st, fa.Field), Ghost: "(Array Int Bool)"})
+				}
+			}
+		}
 	}
 	reg("(*sync.Mutex).Lock", "ghost held-bit set; M: not already held", lockMods, func(fr *Frame, st *State, c *ssa.CallCommon, args []Val, res ssa.Value) Val {
 		fr.lockOp(st, args[0], true, c)
